@@ -79,7 +79,14 @@ theorem prune_cfg (fix : Bool) : ∀ f,
         simp only [TreeL] at h
         obtain ⟨hr1, hr2⟩ := ih.2 rest h.2
         split
-        · exact ⟨hr1, fun k' hk' => by obtain ⟨k, hk, hrel⟩ := hr2 k' hk'; exact ⟨k, List.mem_cons_of_mem _ hk, hrel⟩⟩
+        · split
+          · rename_i hio
+            refine ⟨⟨?_, hr1⟩, fun k' hk' => ?_⟩
+            · simp [Tree, TreeL, cfgLocal]
+            · rcases List.mem_cons.mp hk' with rfl | hk'
+              · exact ⟨c, List.mem_cons_self, rfl, rfl, rfl, id⟩
+              · obtain ⟨k, hk, hrel⟩ := hr2 k' hk'; exact ⟨k, List.mem_cons_of_mem _ hk, hrel⟩
+          · exact ⟨hr1, fun k' hk' => by obtain ⟨k, hk, hrel⟩ := hr2 k' hk'; exact ⟨k, List.mem_cons_of_mem _ hk, hrel⟩⟩
         · obtain ⟨hc1, hc2⟩ := ih.1 c h.1
           refine ⟨⟨hc1, hr1⟩, fun k' hk' => ?_⟩
           rcases List.mem_cons.mp hk' with rfl | hk'
@@ -132,7 +139,14 @@ theorem prune_mand : ∀ f,
         simp only [TreeL] at h
         obtain ⟨hr1, hr2⟩ := ih.2 rest h.2
         split
-        · exact ⟨hr1, fun k' hk' => by obtain ⟨k, hk, hrel⟩ := hr2 k' hk'; exact ⟨k, List.mem_cons_of_mem _ hk, hrel⟩⟩
+        · split
+          · rename_i hio
+            refine ⟨⟨?_, hr1⟩, fun k' hk' => ?_⟩
+            · simp only [Tree, TreeL, mandLocal, and_true]; intro hk; rw [hk] at hio; simp at hio
+            · rcases List.mem_cons.mp hk' with rfl | hk'
+              · exact ⟨c, List.mem_cons_self, rfl, rfl, rfl, id⟩
+              · obtain ⟨k, hk, hrel⟩ := hr2 k' hk'; exact ⟨k, List.mem_cons_of_mem _ hk, hrel⟩
+          · exact ⟨hr1, fun k' hk' => by obtain ⟨k, hk, hrel⟩ := hr2 k' hk'; exact ⟨k, List.mem_cons_of_mem _ hk, hrel⟩⟩
         · obtain ⟨hc1, hc2⟩ := ih.1 c h.1
           refine ⟨⟨hc1, hr1⟩, fun k' hk' => ?_⟩
           rcases List.mem_cons.mp hk' with rfl | hk'
